@@ -4854,6 +4854,7 @@ bool ts_query_cursor_next_capture(
         first_unfinished_pattern_index,
         first_unfinished_capture_byte
       );
+      self->did_exceed_match_limit = true;
       capture_list_pool_release(
         &self->capture_list_pool,
         array_get(&self->states, first_unfinished_state_index)->capture_list_id
